@@ -35,6 +35,9 @@ BAD = {
     'arr_huge': lambda ty: hdr(1, 0x10, 7) + b'\x07\x01\xff\xff\xff\xff\x00',
     'deep_nest': lambda ty: hdr(1, 0x10, 6 * 200000 + 1) + b'\x07\x01\x01\x00\x00\x00' * 200000 + b'\x00',
     'err_long': lambda ty: hdr(1, 0x11, 1000) + b'E' * 1000,
+    # protocol-legal error replies larger than the client's 8 KiB request buffer / than any pipe buffer
+    'err_20k': lambda ty: hdr(1, 0x11, 20000) + b'E' * 20000,
+    'err_300k': lambda ty: hdr(1, 0x11, 300000) + b'E' * 300000,
 }
 EXITS = {'exit0': 'x0', 'exit1': 'x1', 'kill9': 'k'}
 
